@@ -43,9 +43,10 @@ CONSTANTS MaxC,      \* uuids are 1 .. MaxC
           MaxPage,   \* page sizes 1 .. MaxPage
           MaxEnv,    \* number of environment actions
           MaxHist,   \* 0: no history (MC); > 0: record history (Gen)
+          CanFail,   \* BOOLEAN: one list request of the scan may be made to fail
           GeOp       \* operator of the normal mode: ">=" (the code); ">" shows the invariant is not vacuous
 
-VARIABLES db, now, trashed, oldver, init0, everseen, everdel, delivered, fin,   \* contract ghost state
+VARIABLES db, now, trashed, oldver, init0, everseen, everdel, delivered, fin, reqfailed,   \* contract ghost state
           pc,        \* "count0" | "req" | "proc" | "final" | "done"
           lim,       \* page size
           flt,       \* params.Filters
@@ -58,12 +59,13 @@ VARIABLES db, now, trashed, oldver, init0, everseen, everdel, delivered, fin,   
           nreq,      \* number of list requests made so far          (history)
           hist,      \* environment actions with their request index (history)
           dseq,      \* uuids in delivery order                      (history)
-          tbl0, now0 \* initial table and clock                      (history)
+          tbl0, now0, \* initial table and clock                     (history)
+          failr      \* number of the list request that was made to fail, -1 = none (history)
 
 C == INSTANCE CollectionScanContract
-cvars == <<db, now, trashed, oldver, init0, everseen, everdel, delivered, fin>>
+cvars == <<db, now, trashed, oldver, init0, everseen, everdel, delivered, fin, reqfailed>>
 ivars == <<pc, lim, flt, last, ftime, exact, calls, page, idx, envleft>>
-hvars == <<nreq, hist, dseq, tbl0, now0>>
+hvars == <<nreq, hist, dseq, tbl0, now0, failr>>
 vars  == <<cvars, ivars, hvars>>
 view  == <<cvars, ivars>>
 
@@ -97,6 +99,7 @@ Init ==
         /\ dseq = <<>>
         /\ tbl0 = {<<f[u], u>> : u \in DOMAIN f}
         /\ now0 = MaxTime(f)
+        /\ failr = 0 - 1
 
 Rec(h, e) == IF Len(h) < MaxHist THEN Append(h, e) ELSE h
 
@@ -106,7 +109,7 @@ Count0 ==
     /\ C!Count(<<>>, TRUE, TRUE, Cardinality(db))
     /\ pc' = "req"
     /\ nreq' = nreq + 1
-    /\ UNCHANGED <<lim, flt, last, ftime, exact, calls, page, idx, envleft, hist, dseq, tbl0, now0>>
+    /\ UNCHANGED <<lim, flt, last, ftime, exact, calls, page, idx, envleft, hist, dseq, tbl0, now0, failr>>
 
 Fetch ==
     /\ pc = "req"
@@ -115,7 +118,7 @@ Fetch ==
     /\ idx' = 1
     /\ pc' = "proc"
     /\ nreq' = nreq + 1
-    /\ UNCHANGED <<lim, flt, last, ftime, exact, calls, envleft, hist, dseq, tbl0, now0>>
+    /\ UNCHANGED <<lim, flt, last, ftime, exact, calls, envleft, hist, dseq, tbl0, now0, failr>>
 
 ItemSkip ==
     /\ pc = "proc" /\ idx <= Len(page)
@@ -132,7 +135,7 @@ ItemDeliver ==
          /\ dseq' = Rec(dseq, coll[2])
     /\ calls' = calls + 1
     /\ idx' = idx + 1
-    /\ UNCHANGED <<pc, lim, flt, ftime, exact, page, envleft, nreq, hist, tbl0, now0>>
+    /\ UNCHANGED <<pc, lim, flt, ftime, exact, page, envleft, nreq, hist, tbl0, now0, failr>>
 
 EndPage ==
     /\ pc = "proc" /\ idx > Len(page)
@@ -166,7 +169,22 @@ FinalCount ==
        IN C!Finish(~(calls < n))
     /\ pc' = "done"
     /\ nreq' = nreq + 1
+    /\ UNCHANGED <<lim, flt, last, ftime, exact, calls, page, idx, envleft, hist, dseq, tbl0, now0, failr>>
+
+\* any one of the scan's list requests (initial count, a page, the final count) fails: "return err"
+\* (CanFail = FALSE switches this dimension off)
+ReqFails ==
+    /\ CanFail /\ pc \in {"count0", "req", "final"} /\ ~reqfailed
+    /\ C!ReqFail
+    /\ pc' = "failed"
+    /\ failr' = nreq /\ nreq' = nreq + 1
     /\ UNCHANGED <<lim, flt, last, ftime, exact, calls, page, idx, envleft, hist, dseq, tbl0, now0>>
+
+ReturnErr ==
+    /\ pc = "failed"
+    /\ C!Finish(FALSE)
+    /\ pc' = "done"
+    /\ UNCHANGED <<lim, flt, last, ftime, exact, calls, page, idx, envleft, hvars>>
 
 \* other clients of the API, between two list requests
 EnvStep ==
@@ -181,9 +199,9 @@ EnvStep ==
        \/ \E u \in C!Uuids(db) :
             /\ C!EnvDelete(u)
             /\ hist' = Rec(hist, [r |-> nreq, a |-> "del", u |-> u, t |-> 0])
-    /\ UNCHANGED <<pc, lim, flt, last, ftime, exact, calls, page, idx, nreq, dseq, tbl0, now0>>
+    /\ UNCHANGED <<pc, lim, flt, last, ftime, exact, calls, page, idx, nreq, dseq, tbl0, now0, failr>>
 
-Next == Count0 \/ Fetch \/ ItemSkip \/ ItemDeliver \/ EndPage \/ FinalCount \/ EnvStep
+Next == Count0 \/ Fetch \/ ItemSkip \/ ItemDeliver \/ EndPage \/ FinalCount \/ EnvStep \/ ReqFails \/ ReturnErr
 
 Spec == Init /\ [][Next]_vars /\ WF_vars(Next)
 GenSpec == Init /\ [][Next]_vars
@@ -193,11 +211,12 @@ GenSpec == Init /\ [][Next]_vars
 
 Refines == [][ (\E u \in 1 .. MaxC : C!Deliver(u))
                \/ (\E ok \in BOOLEAN : C!Finish(ok))
+               \/ C!ReqFail
                \/ (\E u \in 1 .. MaxC, t \in 1 .. MaxT, k \in 0 .. 2 :
                       C!EnvModify(u, t) \/ C!EnvAdd(u, t, k) \/ C!EnvDelete(u))
                \/ UNCHANGED cvars ]_vars
 
-TypeOK == /\ pc \in {"count0", "req", "proc", "final", "done"}
+TypeOK == /\ pc \in {"count0", "req", "proc", "final", "failed", "done"}
           /\ C!CTypeOK
           /\ calls \in Nat
           /\ idx \in 1 .. MaxPage + 1
@@ -206,7 +225,7 @@ TypeOK == /\ pc \in {"count0", "req", "proc", "final", "done"}
 Complete == C!Complete
 
 \* the "BUG" branch is unreachable: the scan never fails except by the final count
-NoBugBranch == (pc = "done" /\ fin = "err") => calls < Cardinality({c \in db : c[1] <= ftime})
+NoBugBranch == (pc = "done" /\ fin = "err" /\ ~reqfailed) => calls < Cardinality({c \in db : c[1] <= ftime})
 
 \* the cursor never moves backwards, and everything strictly before the cursor time that existed
 \* throughout has been delivered (this is what the code comment claims for the normal mode)
@@ -222,7 +241,7 @@ Terminates == <>(pc = "done")
 Emit == (pc = "done") =>
           Serialize(<<[id |-> TLCGet("distinct"),
                        tbl |-> tbl0,
-                       now0 |-> now0, lim |-> lim, env |-> hist,
+                       now0 |-> now0, lim |-> lim, env |-> hist, failreq |-> failr,
                        expect_dseq |-> dseq, expect_fin |-> fin]>>,
                     IOEnv.VERIF_OUT,
                     [format |-> "NDJSON", charset |-> "UTF-8",
